@@ -132,6 +132,10 @@ impl Project {
                     additional_blocks.push(block);
                 }
             }
+            // The blocks are collected by iterating over a hash set.
+            // Sort them, so that the order of the blocks of a function (and with it the results
+            // of all analyses that depend on the block order) does not change from run to run.
+            additional_blocks.sort_by(|block_a, block_b| block_a.tid.cmp(&block_b.tid));
             sub_to_additional_blocks_map.insert(sub.tid.clone(), additional_blocks);
         }
         sub_to_additional_blocks_map
